@@ -433,6 +433,12 @@ func (f *Frame) invoke(ns *nodeState, x *ssa.Call, recv Val, m *types.Func, args
 		ex.vc.assumeNote("interface method " + m.Name() + "(): arbitrary string, no effect on modelled state")
 		return []Val{f.havocVal(types.Typ[types.String], f.prefix+"errstr", ns.reach)}
 	}
+	if sig, ok := m.Type().(*types.Signature); ok && sig.Params().Len() == 0 && sig.Results().Len() == 1 && inModule(f.fn) {
+		if b, isBasic := sig.Results().At(0).Type().Underlying().(*types.Basic); isBasic && b.Info()&types.IsString != 0 {
+			ex.vc.assumeNote("interface getter " + m.Name() + "(): a pure function of the receiver (no effect, same result for the same value)")
+			return []Val{{T: ifaceGetter(ex.vc, m.Name(), recv.T, SStr)}}
+		}
+	}
 	if h := invokeHandlers[m.FullName()]; h != nil {
 		return h(f, ns, x, recv, args)
 	}
